@@ -1,12 +1,19 @@
 """C07 — every query returns exactly the documents its meaning selects."""
 import os
 
-GEN = False
+GEN = True                  # go/extract/c07.go regenerates lean/BlugeGen/C07.lean (constants and guards of the searcher construction / postings iterator)
 STATELESS = False           # a `case` block is a corpus (batches) followed by its queries
 NO_SHRINK = bool(os.environ.get("VERIF_NO_SHRINK"))
 # kinds of searcher machines / plan shapes the run must exercise (model branches reported by the driver)
 REQUIRED_BRANCHES = ["leaf", "leaf-all", "leaf-unadorned", "conj", "disjS", "disjH", "bool", "bool-mustnot",
-                     "bool-must-should", "bool-should-only", "filt", "phrase", "expect-err"]
+                     "bool-must-should", "bool-should-only", "filt", "phrase", "expect-err",
+                     # the snapshot layout lines (real offsets / sizes / deleted marks) and the per-segment leaf machines
+                     "snap", "snap-multi-segment", "snap-has-deleted", "seg-machine",
+                     # measured on the REAL searcher tree (node-level trace): a FilteringSearcher (the exact-geometry
+                     # stage of the geo searchers) was ADVANCED, rejected the document its child was advanced to, and
+                     # rejected the child's next candidate as well
+                     "trace:filt-advance", "trace:filt-advance-target-rejected",
+                     "trace:filt-advance-rejected-then-next-rejected"]
 ASSUMPTIONS = [
     "a DocumentMatch is its doc number: scores, locations and the match pool do not influence which documents are returned",
     "sort.Sort of the children by Count() only changes the order in which children are asked, never a doc number",
